@@ -17,12 +17,14 @@ over {start, next, finish, state} and ALL handles (controls, time-out, options).
 EntriesOnly (`streamChain false / true`); the state-machine laws (`C10_states`,
 `C10_error_is_absorbing` part 1) hold for EVERY adapter chain including PagedResults.
 
-NOT true for chains containing PagedResults, in the model as in the code (witness below,
-`paged_early_finish_returns_previous_page`): `finish()` before the end, or after an error, on page
-k ≥ 2 returns the result of page k-1 (rc 0, with its paging control) instead of rc 88, because
-`stream.res` still holds the previous page's result.  The paging theorems are in Props/C16.lean.
+Chains containing PagedResults: until /repo 103366d `finish()` before the end (or after an error) on
+page k ≥ 2 returned page k-1's result (finding F23: `stream.res` kept the previous page's result);
+the adapter now clears `stream.res` before it submits the follow-up search, the model mirrors it
+(`pageStart`), and the finish clause holds for EVERY chain (`C10_finish_any_chain`) and the paged
+chains refine the cursor for all call sequences (`C10_refines_paged`).  Paging itself: Props/C16.lean.
 -/
 import Ldap3V.Lemmas.StreamC10
+import Ldap3V.Lemmas.StreamPagedFinish
 namespace Ldap3V.Stream
 open Spec
 
@@ -211,13 +213,48 @@ example : search {} [.script [.item ⟨.entry, 1, none, []⟩, .item ⟨.ref, 2,
       .item ⟨.inter, 3, none, []⟩, .item ⟨.entry, 4, none, []⟩, .done ⟨10, [[0x61]], [], .server 5⟩]] ⟨1, true⟩ =
     .ok [⟨.entry, 1, none, []⟩, ⟨.entry, 4, none, []⟩] ⟨10, [[0x61], [0x6c], [0x6d]], [], .server 5⟩ := by decide +kernel
 
-/-- Witness that the `finish()` clause of C10 FAILS behind PagedResults (model = code): `finish()` in
-the middle of page 2 returns page 1's result (rc 0 with its paging control), not rc 88. -/
-theorem paged_early_finish_returns_previous_page :
+/-- `finish()` at any state reached by ANY call sequence on ANY adapter chain (PagedResults included,
+any nesting), the caller never stuck: unless the stream is Done or already Closed — i.e. Fresh,
+Active or Error: not read to the end — the result is the synthetic rc 88 "user cancelled" without
+controls (referrals: what the EntriesOnly adapters of the chain hold) and exactly one scrub is sent,
+for the search in flight.  No hypothesis on the scripts: disconnects, time-outs, follow-up searches
+that cannot be submitted are all covered. -/
+theorem C10_finish_any_chain (chain : List Adapter) (h : Handle) (pages : List Page) (calls : List Call)
+    (hns : ∀ o ∈ run (init chain h pages) calls, o.stuck = false) :
+    let m := exec (init chain h pages) calls
+    m.s.state ≠ .done → m.s.state ≠ .closed →
+      (step m .finish).2 = .result { cancelled with refs := chainRefs m.chain } ∧
+      (step m .finish).1.s.scrubs = m.s.scrubs ++ [m.s.reqs.length] :=
+  finish_not_done chain h pages calls hns
+
+/-- The three chains with PagedResults refine the cursor on their view for ALL call sequences,
+`finish()` anywhere included: at Done the last page's result without its first paging control,
+otherwise rc 88. -/
+theorem C10_refines_paged (size : Int) (h : Handle) (pages : List Page) (q : Query) (calls : List Call)
+    (hh : (h.ctrls.getD []).any RCtl.isPaged = false) (hq : q.filterOk = true) :
+    (run (init [pr size] h pages) (.start q :: calls) =
+      Cursor.run (startOutcome [.paged] h q pages) (Cursor.ofView (view [.paged] pages)) (.start q :: calls)) ∧
+    (run (init [eo, pr size] h pages) (.start q :: calls) =
+      Cursor.run (startOutcome [.entriesOnly, .paged] h q pages)
+        (Cursor.ofView (view [.entriesOnly, .paged] pages)) (.start q :: calls)) ∧
+    (run (init [pr size, eo] h pages) (.start q :: calls) =
+      Cursor.run (startOutcome [.paged, .entriesOnly] h q pages)
+        (Cursor.ofView (view [.paged, .entriesOnly] pages)) (.start q :: calls)) :=
+  ⟨refines_paged_all size h pages q calls hh hq, refines_eo_paged_all size h pages q calls hh hq,
+    refines_paged_eo_all size h pages q calls hh hq⟩
+
+/-- The two former witnesses of F23: `finish()` in the middle of page 2, and `finish()` after the
+follow-up search could not be submitted, both return the synthetic rc 88 and scrub the search in flight. -/
+theorem paged_early_finish_is_cancelled :
     run (init [pr 5] {} [.script [.item ⟨.entry, 1, none, []⟩, .done ⟨0, [], [⟨true, some [7], 0⟩], .server 2⟩],
         .script [.item ⟨.entry, 3, none, []⟩, .item ⟨.entry, 4, none, []⟩, .done ⟨0, [], [⟨true, some [], 0⟩], .server 5⟩]])
       [.start ⟨1, true⟩, .next, .next, .finish] =
     [.started .ok, .item (.ok (some ⟨.entry, 1, none, []⟩)), .item (.ok (some ⟨.entry, 3, none, []⟩)),
-     .result ⟨0, [], [⟨true, some [7], 0⟩], .server 2⟩] := by decide +kernel
+     .result cancelled] ∧
+    run (init [pr 5] {} [.script [.item ⟨.entry, 1, none, []⟩, .done ⟨0, [], [⟨true, some [7], 0⟩], .server 2⟩, .closed],
+        .fail (.op 0)])
+      [.start ⟨1, true⟩, .next, .next, .state, .finish] =
+    [.started .ok, .item (.ok (some ⟨.entry, 1, none, []⟩)), .item (.err (.op 0)), .st .error,
+     .result cancelled] := by decide +kernel
 
 end Ldap3V.Stream
